@@ -21,7 +21,7 @@ def main():
         if top["level"] == "proof":
             text = (f"Property-level theorems ({names}) and every contract and lemma in their dependency cone are discharged by the Lean 4 kernel over code "
                     f"extracted mechanically from /repo on every run, with only the three standard axioms; the statements were audited against the property text "
-                    f"(lean/AUDIT.md) and each has a machine-checked witness of its hypotheses. Scope: {top['note']}. A bounded search on the real code runs "
+                    f"(lean/AUDIT.md, lean/AUDIT2.md) and the main ones have machine-checked witnesses of all their hypotheses (listed per check in the evidence). Scope: {top['note']}. A bounded search on the real code runs "
                     f"alongside as refuter and model probe; it is reported separately and never counted as proved.")
         else:
             text = (f"Mixed, stated per run in the evidence: function contracts and partial property-level theorems ({names}) are discharged by the Lean 4 kernel over "
